@@ -154,3 +154,46 @@ PROPS["C07"] = {
                 "thorough": {"pairs_verified": 300000}},
     "assumptions": ["client ports are unique within a simulation (ephemeral allocation), used to identify SYNs on the probe"],
 }
+
+_UDP_RULE = ("cases = generated UDP scenarios: 2-4 nodes (some behind NAT), finite or unbounded queues, per-pair MTU, 1-3 receivers (async_receive_from / async_receive / "
+             "wait+receive_from; always-reading, slow or stopping; receive buffers from 8 bytes to 70 kB in 1-3 pieces), 1-3 senders (bound or implicitly bound, small send buffers, "
+             "don't-fragment set/cleared/untouched through both option names), a timeline of sends (sizes 0..70000, 1-4 buffers, bursts), receiver close/re-open, port swaps and socket moves "
+             "while datagrams are in flight, then a fresh burst to every live receiver after draining. Every datagram has unique content; each delivery is matched to the datagram it is, and each "
+             "undelivered accepted datagram needs a stated reason derived from the send log, the probe log and a reference registry of bindings. Non-trivial = at least one datagram was delivered; "
+             "distinct = distinct scenario descriptors.")
+
+PROPS["C08"] = {
+    "level": "exploration",
+    "claim": {
+        "technique": "runtime monitoring: uniquely coded datagrams, per-datagram allowed-fate oracle from send log + on-route probe log + reference binding registry; offline fate classification at quiescence",
+        "text": "Each receive completion is identified with exactly one sent datagram (content is unique), giving at-most-once, payload/truncation, right-socket (binding epochs), sender endpoint and order checks on the spot; after the run every accepted but undelivered datagram must have one of the stated reasons, using a sound upper bound of what could have been waiting in the socket's receive queue when it arrived.",
+        "note": "The 256 kB receive-queue limit is taken from the property's anchors; datagrams shorter than 8 bytes carry a per-case counter so they stay distinguishable; receive buffers are at least 8 bytes.",
+        "ref": "DESIGN.md 3/C08",
+    },
+    "rule": _UDP_RULE,
+    "jobs": [{"engine": "udp", "args": {"n": T(2400, 120000)}}],
+    "require": {"quick": {"datagrams_delivered": 40000, "datagrams_truncated_by_receive_buffer": 5000, "receiver_reopens": 2000, "port_swaps": 200,
+                          "receiver_moves": 1000, "undelivered:queue_tail_drop": 5000, "undelivered:receive_buffer_full": 300, "sends_would_block": 3000,
+                          "accounting_probe_bursts": 3000},
+                "thorough": {"datagrams_delivered": 2000000}},
+    "assumptions": ["senders and receivers are IPv4 sockets on single-address nodes", "a socket is moved only when the harness has no operation outstanding on it"],
+}
+
+PROPS["C20"] = {
+    "level": "exploration",
+    "claim": {
+        "technique": "runtime monitoring: on-wire probes (payload size of every TCP segment vs configured path MTU, fingerprints at first and last probe), UDP don't-fragment matrix on the datagram-fate oracle",
+        "text": "TCP: every payload segment seen by the probe that is the first hop of the sender's route, in both directions, must carry at most the configured per-pair MTU, and every segment arriving at the destination node must be an unaltered copy of a transmitted one. UDP: with don't-fragment set (through either option name) an over-MTU datagram must be accepted by send_to yet never appear on the wire; cleared or untouched it must be delivered whole; in-MTU datagrams are unaffected.",
+        "note": "Per-pair symmetric MTUs so both readings of 'the path MTU the configuration reports for the two endpoints' coincide; no NAT in these scenarios.",
+        "ref": "DESIGN.md 3/C20",
+    },
+    "rule": "TCP cases = (MTU from 1 to 9000 per address pair, 0-2 hops, payload lengths at k*MTU-1/0/+1 in both directions, write/read patterns); UDP cases = C08 scenarios with MTU from 1 to 9000, "
+            "datagram sizes at MTU-1/MTU/MTU+1/2*MTU and the don't-fragment option set, cleared or never touched. Non-trivial = payload flowed from the accepted side as well / a datagram was delivered; "
+            "distinct = distinct descriptors.",
+    "jobs": [{"name": "tcp", "engine": "tcp", "args": {"n": T(1000, 40000)}},
+             {"name": "udp", "engine": "udp", "args": {"n": T(1500, 60000)}}],
+    "require": {"quick": {"cases_with_accepted_side_payload": 900, "tcp_segments_of_exactly_mtu": 100000, "df_oversize_datagrams": 3000,
+                          "oversize_datagrams_delivered_whole": 3000},
+                "thorough": {"tcp_segments_on_wire": 20000000}},
+    "assumptions": _TCP_ASSUME[:2],
+}
